@@ -39,7 +39,7 @@ META['explanation'] += ' ' + 'R10: SCSV fold tabulated through the class default
 
 META['explanation'] += ' ' + 'R2 also: a parsed field that reaches no argument of the constructed object, a constant written in place of an attribute the parser stores as read, items written sorted / reversed. R14: numeric presence by truth value. R15: flag words and timestamps (shared with C11.R4/R5). R16: ECDSA points (shared with C07.R12). R17: validators in the position of a default. R18: adjacent optional text parts with the same introducer.'
 
-META['explanation'] += ' ' + 'R19: SSH identification string (shared with C07.R6). R20: SPF network terms (shared with C18.R7). R21: no member of a variant table demands more bytes up front than a complete message of a sibling has.'
+META['explanation'] += ' ' + 'R19: SSH identification string (shared with C07.R6). R20: SPF network terms (shared with C18.R7). R21: no member of a variant table demands more bytes up front than a complete message of a sibling has. R22: the lower bound a parser puts on a length field admits the smallest value the composer writes.'
 
 HERE = os.path.dirname(os.path.dirname(os.path.abspath(__file__)))
 
@@ -208,6 +208,7 @@ def check(ctx, report):
     from .c18 import spf_network_composer
     spf_network_composer(ctx, report, rule='C01.R20')
     variant_siblings_reachable(ctx, report)
+    guards_admit_smallest(ctx, report)
     if 'SslRecord' in reviewed and reviewed['SslRecord'].get('strip_header'):
         # the header left out of the element-wise comparison above
         from .c06 import ssl2_header
@@ -991,3 +992,57 @@ def variant_siblings_reachable(ctx, report, RULE='C01.R21'):
                     break
     report.sample({'rule': RULE, 'variant_tables': tables})
     report.floor(RULE, 10, 'members of variant tables with a size pre-check')
+
+
+def guards_admit_smallest(ctx, report, RULE='C01.R22', only=None, floor=10):
+    """A length field counts what follows it: ``field = const + size(data)`` (the link of C01.R1: const is what always follows, data
+    the part that may be empty).  The composer writes ``const`` for empty data.  A parser that refuses ``field < k`` with k above
+    const refuses what its own composer writes for the smallest object (a COTP connection request without user data has the
+    length indicator 6; ``< HEADER_SIZE`` instead of ``< HEADER_SIZE - 1`` refuses it).  For every byte-counted link whose
+    variable part can be empty (raw / text data), the lower-bound guards on the field that precede its use (read as in C03.R4)
+    must not exceed the constant part."""
+    from ..canon import fixed_size
+    from ..compare import compare_class, leaves
+    from .c03 import lower_bounds
+    report.rule(RULE, 'length fields: the lower bound the parser puts on the field admits the value the composer writes for empty data')
+    n = 0
+    for c in ctx.model.concrete_parsables():
+        if only is not None and c.module.name not in only:
+            continue
+        if classify(ctx, c) not in ('binary', 'mixed'):
+            continue
+        try:
+            cm = compare_class(c, ctx.canon)
+            lay = ctx.canon.layout(c, 'parse')
+        except Exception:      # pylint: disable=broad-except
+            continue
+        linked = [(a, b) for a, b in cm.pairs if a.kind == 'u' and getattr(a, 'link', None) is not None and isinstance(a.key, str)]
+        if not linked:
+            continue
+        lbs = lower_bounds(lay.items, object())
+        for a, _b in linked:
+            unit, const, targets = a.link
+            if unit != 'bytes' or not isinstance(const, int):
+                continue
+            tops = []
+            for t in targets:
+                tops.extend(leaves(t, cm.expanded))
+            k, variable = const, []
+            for e in tops:
+                fs = fixed_size(e, ctx.canon) if not getattr(e, 'conditional', False) else None
+                if fs is not None:
+                    k += fs
+                else:
+                    variable.append(e)
+            if not variable or not all(e.kind in ('raw', 'text') for e in variable):
+                continue        # the variable part has a minimum of its own (a nested structure, a counted array): not decided here
+            n += 1
+            report.count(RULE)
+            g = lbs.get(a.key)
+            if isinstance(g, int) and g > k:
+                report.add(RULE, '%s@floor[%s]' % (c.construct, a.key),
+                           'the parser refuses %s below %d, the field counts %d fixed octets plus data that may be empty: the %d the composer writes '
+                           'for an object without data is refused by the parser of the same class' % (a.key, g, k, k))
+            else:
+                report.sample({'rule': RULE, 'class': c.name, 'field': a.key, 'fixed_part': k, 'guard': g}, 12)
+    report.floor(RULE, floor, 'byte counted length fields over data that may be empty')
